@@ -199,7 +199,8 @@ class AssociationAcceptor(socketserver.StreamRequestHandler, Association):
         acceptable_pr_contexts"""
         user_items = assoc_req.variable_items[-1]
         max_pdu_sub_item = user_items.user_data[0]
-        if self.max_pdu_length > max_pdu_sub_item.maximum_length_received:
+        # zero means that requestor places no limit on P-DATA-TF PDU size
+        if 0 < max_pdu_sub_item.maximum_length_received < self.max_pdu_length:
             self.max_pdu_length = max_pdu_sub_item.maximum_length_received
         max_pdu_sub_item.maximum_length_received = self.max_pdu_length
 
